@@ -143,6 +143,19 @@ def run(ctx):
     for i, t in enumerate(texts):
         sops.append('%s\tx\t%s' % (esc_list(full_chains[i % len(full_chains)]), esc(t)))
     out = ctx.run_go('builder', sops)
+    # the same chains through builder.Run with the builders registered, one build after another in ONE process, on the same
+    # file name (a regular build followed by a full one): each must give what the chain gives on its own
+    out_run = ctx.run_go('buildrun', sops)
+    ctx.cov['evaluations'] += len(sops)
+    nrun = 0
+    for i, (a, b) in enumerate(zip(out, out_run)):
+        if a != b:
+            nrun += 1
+            if nrun <= 3:
+                ctx.violation('builder.Run with the tasks %s gives another text than those tasks applied one after the other, when earlier builds '
+                              'ran in the same process (the text of a build depends on the builds before it)' % sops[i].split('\t')[0],
+                              {'op': sops[i][:3000], 'tasks_applied_directly': a[:1500], 'builder_Run_after_other_builds': b[:1500]})
+    ctx.cov['search']['builder_run_history'] = {'builds_in_one_process': len(sops), 'differing': nrun}
     ctx.cov['evaluations'] += len(sops)
     nbad = 0
     for i, o in enumerate(out):
